@@ -71,9 +71,50 @@ fn kind(c: &Cmd) -> &'static str {
 /// Structured sequences (the first cases of every run): thresholds of 2..3 root keys reached — or
 /// not — by signing repeatedly with the same / with different keys, with and without
 /// --ignore-threshold in between, for every kind of key file.
+const TEMPLATES_A: u64 = 96;
+const EDITS_AFTER_SIGN: u64 = 11;
+const TEMPLATES: u64 = TEMPLATES_A + 4 * EDITS_AFTER_SIGN;
+
+/// Second family: a root that is completely signed, then ONE content-changing subcommand of every
+/// kind (including those that change the signed content without changing the key table: an already
+/// listed key added to another role, a key removed from one role only), then signing again.
+fn template_edit_after_sign(j: u64) -> Vec<Cmd> {
+    let k1 = (j % 4) as usize;
+    let k2 = (k1 + 1) % 4;
+    let k3 = (k1 + 2) % 4;
+    let mut v = vec![
+        Cmd::Init(None),
+        Cmd::AddKey { keys: vec![k1], roles: vec![0, 1, 3] },
+        Cmd::AddKey { keys: vec![k2], roles: vec![2] },
+    ];
+    for role in 0..4 {
+        v.push(Cmd::SetThreshold { role, t: 1 });
+    }
+    v.push(Cmd::Sign { keys: vec![k1], ignore: false, cross: false });
+    v.push(match j / 4 {
+        0 => Cmd::AddKey { keys: vec![k1], roles: vec![2] },
+        1 => Cmd::AddKey { keys: vec![k2], roles: vec![0] },
+        2 => Cmd::AddKey { keys: vec![k3], roles: vec![] },
+        3 => Cmd::AddKey { keys: vec![k1, k2], roles: vec![1, 2] },
+        4 => Cmd::RemoveKey { key: k1, role: Some(3) },
+        5 => Cmd::RemoveKey { key: k2, role: None },
+        6 => Cmd::SetThreshold { role: 1, t: 2 },
+        7 => Cmd::SetVersion(7),
+        8 => Cmd::BumpVersion,
+        9 => Cmd::Expire("2031-05-05T05:05:05Z"),
+        // a true no-op (key and role already listed): the signatures may stay or go
+        _ => Cmd::AddKey { keys: vec![k1], roles: vec![0] },
+    });
+    v.push(Cmd::Sign { keys: vec![k1], ignore: false, cross: false });
+    v
+}
+
 fn template(i: u64) -> Option<Vec<Cmd>> {
     let nk = KEYS.len() as u64; // 4 key files
     let shapes = 6u64;
+    if i >= TEMPLATES_A && i < TEMPLATES {
+        return Some(template_edit_after_sign(i - TEMPLATES_A));
+    }
     if i >= nk * nk * shapes {
         return None;
     }
@@ -404,7 +445,7 @@ pub fn run(cfg: &Cfg) -> i32 {
     }
     let _ = pool();
     // 96 structured sequences first, then seeded random ones
-    let n = cfg.tier.pick(96 + 250u64, 96 + 2_500);
+    let n = cfg.tier.pick(TEMPLATES + 220u64, TEMPLATES + 2_500);
     let budget = cfg.tier.pick(Duration::from_secs(600), Duration::from_secs(3000));
     let ev = par_run(cfg, n, budget, |w, i| Some(run_case(w, i)));
     let mut required: Vec<String> = Vec::new();
